@@ -311,6 +311,107 @@ def run (fuel : Nat) (e : Expr) : Res Val :=
   | .error err => .error err
   | .ok code => runCode fuel code
 
+/-! ### translation validation of the code layout (C21 `vm_lambda_partial`)
+
+`matchExpr code frame e is` reads, from the instruction list `is`, the instructions that
+`compileTarget` emits for `e` under `frame` and returns what follows them; for a lambda it follows the
+resolved entry point into `code` and checks the whole target there (`Store`s of distinct registers
+below `MaxArgs`, the body under the extended frame, `Discard ; Return`).  `layoutOK e` = the compiler
+succeeds exactly on the statically well-formed programs and the array it produces has this layout.
+It is a decidable check on the compiler's output; the C21 driver evaluates it on every program. -/
+
+def litMatches : Lit → Val → Bool
+  | .int i, .int j => i == j
+  | .str s, .str t => s == t
+  | .query q, .query q' => Query.beq q q'
+  | .other k t, .other k' t' => k == k' && t == t'
+  | _, _ => false
+
+/-- the `k` `Store`s at the head of a lambda target; the registers in parameter order -/
+def takeStores : Nat → List Instr → Option (List Nat × List Instr)
+  | 0, is => some ([], is)
+  | k + 1, .store r :: is =>
+    match takeStores k is with
+    | some (rs, rest) => some (rs ++ [r], rest)
+    | none => none
+  | _, _ => none
+
+/-- a lambda target at `pc`; `m` matches its body -/
+def matchLamWith (m : Frame → List Instr → Option (List Instr)) (code : List Instr) (frame : Frame)
+    (ps : List String) (pc : Nat) : Bool :=
+  match takeStores ps.length (code.drop pc) with
+  | some (own, is) =>
+    own.all (fun r => decide (r < maxArgs)) && decide own.Nodup &&
+      (match m (ps.zip own ++ frame) is with
+        | some (.discard :: .ret :: _) => true
+        | _ => false)
+  | none => false
+
+mutual
+  def matchExpr (code : List Instr) : Frame → Expr → List Instr → Option (List Instr)
+    | frame, .sym s, is =>
+      match frame.lookup s with
+      | some r => (match is with
+        | .load r' :: rest => if r == r' then some rest else none
+        | _ => none)
+      | none => match Builtin.ofName s with
+        | some b => (match is with
+          | .pushFn b' :: rest => if b == b' then some rest else none
+          | _ => none)
+        | none => none
+    | _, .lit l, is =>
+      (match is with
+        | .pushVal v :: rest => if litMatches l v then some rest else none
+        | _ => none)
+    | frame, .lam ps b, is =>
+      (match is with
+        | .pushLam pc k :: rest =>
+          if k == ps.length && matchLamWith (fun fr js => matchExpr code fr b js) code frame ps pc then some rest
+          else none
+        | _ => none)
+    | frame, .call f args _, is =>
+      match matchArgs code frame args is with
+      | none => none
+      | some is1 =>
+        match f with
+        | .sym s => (match Builtin.ofName s, is1 with
+          | some b, .callFn b' n :: rest => if b == b' && n == args.length then some rest else none
+          | _, _ => none)
+        | .lit _ => none
+        | .lam _ _ => (match is1 with
+          | .callLam pc k n :: rest =>
+            if n == args.length && matchLamAt code frame f pc k then some rest else none
+          | _ => none)
+        | .call _ _ _ => (match matchExpr code frame f is1 with
+          | some (.callStack n :: rest) => if n == args.length then some rest else none
+          | _ => none)
+  /-- `f` is a lambda expression whose target is at `pc`, with `k` parameters -/
+  def matchLamAt (code : List Instr) : Frame → Expr → Nat → Nat → Bool
+    | frame, .lam ps b, pc, k =>
+      k == ps.length && matchLamWith (fun fr js => matchExpr code fr b js) code frame ps pc
+    | _, _, _, _ => false
+  def matchArgs (code : List Instr) : Frame → List Expr → List Instr → Option (List Instr)
+    | _, [], is => some is
+    | frame, a :: as, is =>
+      match matchExpr code frame a is with
+      | none => none
+      | some is1 => matchArgs code frame as is1
+end
+
+/-- the whole array: `PushValue 0`, the main expression under the empty frame, `Return` -/
+def matchMain (code : List Instr) (e : Expr) : Bool :=
+  match code with
+  | .pushVal _ :: is => (match matchExpr code [] e is with
+    | some (.ret :: _) => true
+    | _ => false)
+  | _ => false
+
+def layoutOK (e : Expr) : Bool :=
+  match compile e with
+  | .ok code => wellFormed e && matchMain code e
+  | .error .error => !wellFormed e
+  | .error _ => false
+
 /-! ### text of an instruction list, as `api.VerifCompileDump` prints it -/
 
 def Instr.render : Instr → String
